@@ -55,4 +55,16 @@ RawAntipode(a) == IF a = 0 THEN 11 ELSE IF a = 11 THEN 0
                   ELSE IF a % 2 = 1 THEN LowerRing[((((a - 1) \div 2) + 2) % 5) + 1]    \* upper i  <-> lower i+2 (azimuth +180)
                   ELSE UpperRing[((((a - 2) \div 2) + 3) % 5) + 1]
 Antipode(f) == NewId(RawAntipode(OriginOrder0[f + 1]))
+---------------------------------------------------------------------------
+(* Angular sectors of a face, as integer arithmetic.  Angles are measured in half-units h, where    *)
+(* 16 h = pi/5 (one face triangle), 32 h = one quintant, 160 h = a full turn; recorded angles are   *)
+(* odd multiples of h, so they never sit on a sector boundary.                                      *)
+(*   get_face_triangle_index: floor(gamma / (pi/5)) mod 10                                          *)
+(*   get_quintant_polar:      round(gamma / (2 pi/5)) mod 5                                         *)
+(*   get_base_face_triangle:  quintant of triangle idx = ceil(idx / 2) mod 5                        *)
+TurnH == 160
+NormH(g) == ((g % TurnH) + TurnH) % TurnH
+FaceTriangleIndex(g) == NormH(g) \div 16
+QuintantOfAngle(g) == ((NormH(g) + 16) \div 32) % 5
+QuintantOfTriangle(idx) == ((idx + 1) \div 2) % 5
 =============================================================================
